@@ -64,6 +64,9 @@ pub struct Mutant {
     pub project: Project,
     /// The fault must produce an error-level diagnostic (known by construction).
     pub must_error: bool,
+    /// Names of definitions the fault makes the tool drop (known by construction): each must be
+    /// named by an error-level diagnostic.
+    pub must_mention: Vec<String>,
 }
 
 fn main_text(p: &Project) -> String {
@@ -82,7 +85,7 @@ pub fn mutants(base_name: &str) -> Vec<Mutant> {
     let toks = tokenize(&text);
     let mut out = Vec::new();
     let mut push = |kind: &str, position: usize, project: Project, must_error: bool| {
-        out.push(Mutant { base: base_name.to_string(), kind: kind.to_string(), position, project, must_error });
+        out.push(Mutant { base: base_name.to_string(), kind: kind.to_string(), position, project, must_error, must_mention: Vec::new() });
     };
     for (i, t) in toks.iter().enumerate() {
         let replace = |with: &str| format!("{}{}{}", &text[..t.range.start], with, &text[t.range.end..]);
@@ -158,6 +161,18 @@ pub fn mutants(base_name: &str) -> Vec<Mutant> {
         q.files[1].1 = Some(format!("{lib}\ncomponent main = Leaf(1);\n").into_bytes());
         push("multiple-main-in-included-file", 0, q, true);
     }
+    // Several main components, none of them in the named file (which includes two files that
+    // each define one).
+    if base_name != "single" {
+        let mut q = with_main(
+            &p,
+            text.replacen("component main = Top(2);\n", "", 1).replacen("include \"lib.circom\";\n", "include \"lib.circom\";\ninclude \"inc2.circom\";\n", 1),
+        );
+        let lib = String::from_utf8(q.files[1].1.clone().unwrap()).unwrap();
+        q.files[1].1 = Some(format!("{lib}\ncomponent main = Leaf(1);\n").into_bytes());
+        q.files.push(("inc2.circom".into(), Some(b"pragma circom 2.1.4;\ntemplate Inc2() {\n    signal input in;\n    signal output out;\n    out <== in;\n}\ncomponent main = Inc2();\n".to_vec())));
+        push("multiple-main-all-in-included-files", 0, q, true);
+    }
     // A definition of the named file repeats the name of a definition of an included file.
     if base_name != "single" {
         push(
@@ -186,8 +201,29 @@ pub fn mutants(base_name: &str) -> Vec<Mutant> {
         with_main(&p, text.replacen("component main", "template Top(m) {\n    signal input in;\n    signal output out;\n    out <== in;\n}\n\ncomponent main", 1)),
         true,
     );
+    // Definitions of two different files clash with earlier ones: each dropped definition must be
+    // reported, with and without a main component.
+    for (i, main_text) in [text.clone(), text.replacen("component main = Top(2);\n", "", 1)].into_iter().enumerate() {
+        let mut q = with_main(&p, main_text);
+        q.files.push(("second.circom".into(), Some(b"pragma circom 2.1.4;\ntemplate Top(m) {\n    signal input in;\n    signal output out;\n    out <== in;\n}\n".to_vec())));
+        q.files.push(("third.circom".into(), Some(b"pragma circom 2.1.4;\ntemplate Leaf(m) {\n    signal input in;\n    signal output out;\n    out <== in;\n}\nfunction double(m) {\n    return m;\n}\n".to_vec())));
+        q.named.push("second.circom".into());
+        q.named.push("third.circom".into());
+        for (j, order) in [[0usize, 1, 2], [2, 1, 0], [1, 2, 0]].iter().enumerate() {
+            let mut r = q.clone();
+            r.named = order.iter().map(|k| q.named[*k].clone()).collect();
+            push("duplicate-definitions-in-two-files", i * 3 + j, r, true);
+        }
+    }
     let no_main = text.replacen("component main = Top(2);\n", "", 1);
     push("duplicate-definition-no-main", 0, with_main(&p, format!("{no_main}\ntemplate Top(m) {{\n    signal input in;\n    signal output out;\n    out <== in;\n}}\n")), true);
+    for m in out.iter_mut() {
+        if m.kind == "duplicate-definitions-in-two-files" {
+            m.must_mention = vec!["Top".into(), "Leaf".into(), "double".into()];
+        } else if m.kind.starts_with("duplicate-definition") && m.kind != "duplicate-definition-of-included" {
+            m.must_mention = vec!["Top".into()];
+        }
+    }
     out
 }
 
@@ -270,6 +306,20 @@ pub fn judge(m: &Mutant, dir: &Path, case: &Value) -> Vec<Violation> {
                 observed: format!("{}\n{}", crate::infra::truncate(&run.stdout, 600), shown_source()),
             });
         }
+        for name in &m.must_mention {
+            let needle = format!("`{name}`");
+            let named = run.diagnostics.iter().filter(|d| d.level() == "error").any(|d| d.message.contains(&needle) || d.labels.iter().any(|l| l.contains(&needle)));
+            if !named {
+                out.push(Violation {
+                    signature: format!("dropped-definition-not-reported/{}", m.kind),
+                    what: format!("fault {}@{} in base {}: a second definition of `{name}` is dropped but no error-level diagnostic names it (--level {level})", m.kind, m.position, m.base),
+                    case: c.clone(),
+                    expected: format!("an error-level diagnostic naming `{name}`"),
+                    observed: format!("{}\n{}", crate::infra::truncate(&run.stdout, 900), shown_source()),
+                });
+                break;
+            }
+        }
         if errors == 0 && *level == "info" {
             // (b): everything in the named files must have been analysed.
             let mut scanned: Vec<(String, String)> = Vec::new();
@@ -312,7 +362,7 @@ pub fn run(run: &Run) {
          position of the main file of each base project (single file; file + include; file + -L \
          library), plus structural faults (missing / non-UTF-8 / dangling file, missing include, \
          unsupported pragma, sugar in functions, malformed sugar in templates, duplicate parameters, \
-         several main components, duplicate definitions), each through the binary under --level info \
+         several main components (in named and in only-included files), duplicate definitions in one, two and three files with every dropped definition named by an error), each through the binary under --level info \
          (and --level error for faults that must be reported); non-trivial = mutant differs from base",
     );
     let bases: &[&str] = &["single", "include", "library"];
